@@ -8,26 +8,84 @@ import time
 
 from .common import Finding, Report
 from .sched import Exec, Stats, explore, replay as _replay
+from .vloop import HarnessError
 
 BUDGET = 400     # executions per work item before the remaining stack is handed back
 
 
+_LAST = None      # (module, scenario key, choices) of the execution that ran last in this process
+
+
 def _work(item):
+    global _LAST
     modname, key, bound, starts, budget = item
     mod = importlib.import_module(modname)
     factory = mod.factory(key)
     st = Stats()
     left = []
     remaining = budget
+
+    def note(choices):
+        global _LAST
+        _LAST = (modname, key, list(choices))
     for s in starts:
         if remaining <= 0:
             left.append(s)
             continue
         before = st.executions
-        st, lo = explore(factory, bound, start=s, budget=remaining, stats=st)
+        try:
+            st, lo = explore(factory, bound, start=s, budget=remaining, stats=st, on_exec=note)
+        except HarnessError as e:
+            victim = getattr(e, "victim", None)
+            if "replay divergence" in str(e) and victim is not None and _LAST is not None:
+                # a replayed prefix took another turn than when it was recorded: either the harness is not
+                # deterministic, or the execution that ran before it in this process left something behind
+                # in the library (state kept outside the pipeline instances).  The parent decides which.
+                return key, bound, st, [], dict(culprit=_LAST, victim=(key, list(victim[0]), list(victim[1])), message=str(e))
+            raise
         remaining -= st.executions - before
         left.extend(lo)
-    return key, bound, st, left
+    return key, bound, st, left, None
+
+
+def _confirm_job(item):
+    modname, key, choices = item
+    mod = importlib.import_module(modname)
+    try:
+        x = _replay(mod.factory(key), choices)
+    except HarnessError as e:
+        return [("harness", str(e), "")], None
+    return sorted(set(v.sig for v in x.violations)), list(x.scen.trace)
+
+
+def _pair_job(item):
+    """fresh process: the victim prefix alone, or after the culprit execution"""
+    modname, culprit, victim = item
+    mod = importlib.import_module(modname)
+    if culprit is not None:
+        Exec(mod.factory(_tuplify(culprit[1])), tuple(culprit[2])).run()
+    vkey, prefix, labels = victim
+    try:
+        x = Exec(mod.factory(_tuplify(vkey)), tuple(prefix), tuple(labels)).run()
+    except HarnessError as e:
+        return ("diverged", str(e), None)
+    return ("ok", _observation(x), x.scen.site())
+
+
+def pair(modname, culprit, victim):
+    """None, or (site, info) when the victim execution behaves differently after the culprit execution has run
+    in the same process than it does in a process of its own"""
+    mp = multiprocessing.get_context("fork")
+    with mp.Pool(processes=2, maxtasksperchild=1) as pool:
+        alone, after = pool.map(_pair_job, [(modname, None, victim), (modname, culprit, victim)], 1)
+    if alone[0] != "ok":
+        raise HarnessError("replay divergence in a process of its own (harness not deterministic): %s" % alone[1])
+    if after[0] == "ok" and after[1] == alone[1]:
+        return None
+    info = dict(after_execution=dict(scenario=_kstr(_tuplify(culprit[1])), choices=culprit[2]),
+                this_execution=dict(scenario=_kstr(_tuplify(victim[0])), labels=list(victim[2])),
+                behaviour_alone="as recorded", behaviour_after=after[1] if after[0] == "diverged" else "observations differ")
+    return alone[2], info
 
 
 SHARED = "instances-share-state"
@@ -89,14 +147,19 @@ def run_scenarios(ctx, modname, jobs_spec, cap=None):
         st.viol[sig] = (["<default schedule, run twice in one process>"], repr(info)[:600], [])
         st.viol_count[sig] += 1
     jobs_spec = [(k, b) for k, b in jobs_spec if k not in shared]
+    leaked = set()
     items = [(modname, key, bound, [((), ())], BUDGET) for key, bound in jobs_spec]
     ctx.rng.shuffle(items)
     if ctx.jobs <= 1:
         queue = list(items)
         while queue:
             it = queue.pop()
-            key, bound, st, left = _work(it)
+            key, bound, st, left, div = _work(it)
             results[key].merge(st)
+            if div is not None:
+                _leak(ctx, modname, results, leaked, div)
+                queue = [q for q in queue if q[1] not in leaked]
+                continue
             if left:
                 if cap and results[key].executions >= cap:
                     results[key].capped = True
@@ -113,8 +176,13 @@ def run_scenarios(ctx, modname, jobs_spec, cap=None):
         for r in pending:
             if r.ready():
                 progressed = True
-                key, bound, st, left = r.get()
+                key, bound, st, left, div = r.get()
                 results[key].merge(st)
+                if div is not None:
+                    _leak(ctx, modname, results, leaked, div)
+                    continue
+                if key in leaked:
+                    continue
                 if left:
                     if cap and results[key].executions >= cap:
                         results[key].capped = True
@@ -130,6 +198,23 @@ def run_scenarios(ctx, modname, jobs_spec, cap=None):
         if not progressed:
             time.sleep(0.01)
     return results
+
+
+def _leak(ctx, modname, results, leaked, div):
+    key = div["victim"][0]
+    if key in leaked:
+        return
+    res = pair(modname, div["culprit"], div["victim"])
+    if res is None:
+        raise HarnessError(div["message"] + " (not explained by the execution that ran before it)")
+    leaked.add(key)
+    site, info = res
+    sig = (SHARED, site, "")
+    st = results[key]
+    if sig not in st.viol:
+        st.viol[sig] = (["<pair>"], repr(info)[:600], dict(culprit=[div["culprit"][0], _jsonkey(div["culprit"][1]), div["culprit"][2]],
+                                                             victim=[_jsonkey(div["victim"][0]), div["victim"][1], div["victim"][2]]))
+    st.viol_count[sig] += 1
 
 
 def report_from(ctx, modname, results, bounds, rule, assumptions=(), confirm=True):
@@ -148,6 +233,15 @@ def report_from(ctx, modname, results, bounds, rule, assumptions=(), confirm=Tru
         per[_kstr(key)] = dict(executions=st.executions, states=len(st.states), outcomes=len(st.outcomes),
                                transitions=st.transitions, violating_signatures=len(st.viol), capped=st.capped)
         for sig, (trace, info, choices) in st.viol.items():
+            if sig[0] == SHARED and isinstance(choices, dict):
+                # (already established in fresh processes by pair())
+                if pair(modname, choices["culprit"], (_tuplify(choices["victim"][0]), choices["victim"][1], choices["victim"][2])) is None:
+                    raise HarnessError("%r of %r not reproducible" % (sig, key))
+                rep.add(Finding(sig[0], sig[1], sig[2],
+                                dict(engine="sched-pair", module=modname, scenario=_jsonkey(key), pair=choices, observed=info),
+                                "%s: an execution behaves differently after another one has run in the same process :: %s" % (_kstr(key), info),
+                                count=st.viol_count[sig]))
+                continue
             if sig[0] == SHARED:
                 # confirmed in two more fresh processes
                 again = [_independence(ctx, modname, [key]).get(key) for _ in range(2)]
@@ -159,12 +253,15 @@ def report_from(ctx, modname, results, bounds, rule, assumptions=(), confirm=Tru
                                 "%s: default schedule run twice in one process :: %s" % (_kstr(key), info), count=1))
                 continue
             if confirm:
-                a = _replay(mod.factory(key), choices)
-                b = _replay(mod.factory(key), choices)
-                sa = sorted(set(v.sig for v in a.violations))
-                sb = sorted(set(v.sig for v in b.violations))
-                if sa != sb or sig not in sa or a.scen.trace != b.scen.trace:
-                    from .vloop import HarnessError
+                # replayed twice, each time in a process that has run nothing else
+                mp = multiprocessing.get_context("fork")
+                with mp.Pool(processes=2, maxtasksperchild=1) as pool:
+                    (sa, ta), (sb, tb) = pool.map(_confirm_job, [(modname, key, choices)] * 2, 1)
+                if sa != sb or sig not in sa or ta != tb:
+                    if any(s[0] == SHARED for st2 in results.values() for s in st2.viol):
+                        # found in a worker process in which an earlier execution had left state behind (reported
+                        # separately as instances-share-state); the schedule itself does not show it
+                        continue
                     raise HarnessError("violation %r of %r not reproducible on replay: %r vs %r" % (sig, key, sa, sb))
             rep.add(Finding(sig[0], sig[1], sig[2],
                             dict(engine="sched", module=modname, scenario=_jsonkey(key), choices=choices, trace=trace, observed=info),
@@ -200,6 +297,16 @@ def replay_finding(modname, rep):
     mod = importlib.import_module(modname)
     key = rep["scenario"]
     key = tuple(_tuplify(k) for k in key) if isinstance(key, list) else key
+    if rep.get("engine") == "sched-pair":
+        class _P:
+            violations = []
+        pr = rep["pair"]
+        res = pair(modname, pr["culprit"], (_tuplify(pr["victim"][0]), pr["victim"][1], pr["victim"][2]))
+        r = _P()
+        if res is not None:
+            from .sched import Violation
+            r.violations = [Violation(SHARED, res[0], "", res[1])]
+        return r
     if rep.get("engine") == "sched-twice":
         class _R:
             violations = []
